@@ -97,6 +97,16 @@ def gen_recipe(rng):
     last_row = [9, max([I.a1(a)[1] + 1 for a in sheets[1][1]] or [0])]
     nargs = rng.choice([1, 1, 2, 2, 3])
     texts, args = [], []
+    # overrides inside the stored block of sheet S: a number cleared to "" or replaced, a blank filled - the fold sees the values in force
+    ov = {}
+    base_sheets = sheets
+    if rng.random() < 0.35:
+        for _ in range(rng.randint(1, 3)):
+            a = '%s%d' % (rng.choice(COLS), rng.randint(1, 5))
+            ov[a] = rng.choice(['', '', 0, 7, 2.5, 'x', True])
+        eff = dict(sheets[0][1])
+        eff.update(ov)
+        sheets = [(sheets[0][0], eff), sheets[1]]
     for i in range(nargs):
         r = rng.random()
         if r < 0.7 or (i == 0 and rng.random() < 0.5):      # a scalar may come first, before an area
@@ -112,7 +122,8 @@ def gen_recipe(rng):
             texts.append('SUM(1,2)'); args.append({'t': 'expr', 'v': 3})
     sep = rng.choice([',', ';'])
     return {'kind': 'formula', 'fn': fn, 'formula': '=%s(%s)' % (fn, sep.join(texts)),
-            'sheets': [[t, {a: C.jenc(v) for a, v in cells.items()}] for t, cells in sheets], 'args': args, 'mix': mix}
+            'sheets': [[t, {a: C.jenc(v) for a, v in cells.items()}] for t, cells in base_sheets], 'args': args, 'mix': mix,
+            'ov': [[a, C.jenc(v)] for a, v in ov.items()]}
 
 
 def coq_args(args):
@@ -129,7 +140,8 @@ def coq_args(args):
 def make_case(rc):
     if rc['kind'] == 'formula':
         sheets = [(t, {a: C.jdec(v) for a, v in cells.items()}) for t, cells in rc['sheets']]
-        out = I.eval_formula(rc['formula'], addr='H9', sheets=sheets)
+        ovs = [I.Cell(0, *I.a1(a), C.jdec(v)) for a, v in rc.get('ov', [])]
+        out = I.eval_formula(rc['formula'], addr='H9', sheets=sheets, overrides=ovs or None)
     else:   # direct helper call on a flat list
         rt = I.runtime()
         fl = C.jdec(rc['list'], empty)
